@@ -216,8 +216,9 @@ class World:
         return g
 
 
-def deliver(world: World, r: int, force=True):
-    """Deliver queued completions of rank r on r's own thread (never nested)."""
+def deliver(world: World, r: int, force=True, until=None):
+    """Deliver queued completions of rank r on r's own thread (never nested), in FIFO order.
+    `until`: stop as soon as that future is done (only the prefix the waiter needs; the rest stays pending longer)."""
     if world.delivering[r]:
         return 0
     q = world.sched.pending[r]
@@ -229,6 +230,8 @@ def deliver(world: World, r: int, force=True):
     n = 0
     try:
         while q:
+            if until is not None and until.done():
+                break
             op, writes, result = q.popleft()
             with torch.no_grad():
                 for dst, src in writes:
@@ -253,8 +256,9 @@ def sim_wait(fut):
         # a callback waits on another communication result: deliver is not re-entrant; report.
         world.monitor.append(f'rank {r}: a completion callback blocks on another unfinished future')
         raise SimAbort()
+    prefix_only = world.rng.random() < 0.5   # deliver everything queued, or only the prefix up to the awaited completion
     while True:
-        deliver(world, r)
+        deliver(world, r, until=(fut if prefix_only else None))
         if fut.done():
             break
         world.sched.yield_(r, 'blocked')
